@@ -10,7 +10,7 @@ leave them unchanged.)
 -/
 namespace Fabio.Props.C17Pins
 open Fabio Fabio.Model.C17
-open Fabio.Generated.C17
+open Fabio.Generated.C17 Fabio.Xlate
 
 /-- the header names, encodings and separators the model uses occur as literals — `c17.resp` (header names in
 every casing, Accept/Accept-Encoding universes) -/
@@ -88,5 +88,40 @@ theorem proxy_wraps_when_configured :
 theorem doc_pattern_pinned :
     docPattern = "^(text/.*|application/(javascript|json|font-woff|xml)|.*\\+(json|xml))(;.*)?$" ∧
     defaultSetsGzipPattern = false := by decide
+
+/-! ### the tie by translation
+
+`Fabio.Generated.C17.XBodyAllowed` is produced on every run by the Go→Lean translator (`tools/factgen/xlate.go`) from
+the current `proxy/gzip/gzip_handler.go`: it IS what `bodyAllowedForStatus` says now. The theorem proves it equal —
+for every status code — to the model's `bodyAllowedForStatus`, the function `compress_iff`/`proxy_compress_iff` are
+about. A change to the Go function changes the generated definition and the proof is re-checked against it; the
+streams carry the tie as well (`c17.resp`, `c17.proxy`: statuses 204/304 and the others), hence a change detector.
+(`acceptsGzip`/`zeroWeight` are outside the translator's subset: `strings.Split/Cut/TrimSpace/Contains`, `range` over
+a `[]string` result, `strconv.ParseFloat`, methods of `http.Header`.) -/
+
+/-- the translated source function was inside the translator's subset (no stub) -/
+theorem bodyAllowed_in_subset : XBodyAllowed.translated = true := rfl
+
+/-- **bodyAllowed_translated.** For every status code the translated `bodyAllowedForStatus` returns — without panic —
+what the model's function returns. -/
+theorem bodyAllowed_translated (code : Nat) :
+    XBodyAllowed.run { p0 := Int.ofNat code } = .ok (bodyAllowedForStatus code, { p0 := Int.ofNat code }) := by
+  simp only [XBodyAllowed.run, Xlate.run, XBodyAllowed.body, Xlate.ret, bodyAllowedForStatus]
+  congr 2
+  have h1 : ((Int.ofNat code != (204 : Int)) = (code != 204)) := by
+    simp only [bne, Int.ofNat_eq_natCast]
+    congr 1
+    rw [show (204 : Int) = ((204 : Nat) : Int) from rfl]
+    exact decide_eq_decide.mpr Int.ofNat_inj
+  have h2 : ((Int.ofNat code != (304 : Int)) = (code != 304)) := by
+    simp only [bne, Int.ofNat_eq_natCast]
+    congr 1
+    rw [show (304 : Int) = ((304 : Nat) : Int) from rfl]
+    exact decide_eq_decide.mpr Int.ofNat_inj
+  rw [h1, h2]
+
+example : XBodyAllowed.run { p0 := 204 } = .ok (false, { p0 := 204 }) := bodyAllowed_translated 204
+example : XBodyAllowed.run { p0 := 304 } = .ok (false, { p0 := 304 }) := bodyAllowed_translated 304
+example : XBodyAllowed.run { p0 := 200 } = .ok (true, { p0 := 200 }) := bodyAllowed_translated 200
 
 end Fabio.Props.C17Pins
